@@ -1,54 +1,66 @@
 /-
-  Rsdns.Props.C09History — C09 over call histories of unbounded length.
+  Rsdns.Props.C09History — C09 over call histories of unbounded length, for EVERY message.
 
-  For a message whose skip pass succeeds (`PassAll`: questions and records can be skipped one after the
-  other — every well-formed message, and every message whose only defects are inside typed RDATA), and
-  for EVERY protocol-conforming call history (`Conforming`: header calls only between records, data
-  calls only with the marker just returned, questions first, seeks / counts / random access at any
-  time):
-    * `sit_step` / `run_conforming` : the reader is always in a situation of the pass — dead (sticky),
-      inside the questions at the pass position, between records at the index its counters stand for,
-      or in the middle of the record whose marker it returned; so every returned marker is the marker
-      of the pass record at that index (`header_step`), every successful data call advances by exactly
-      one record (`data_step`), every failure latches (`*_error_latches`);
+  `layoutOf msg h` is the layout of the skip pass over `msg` under the header counts `h`, as far as it
+  gets: `passNq` questions and `passNr` records can be skipped one after the other (`PassUpto`), and the
+  item behind them — if the counts announce one — cannot (`Fails`).  For a well-formed message the pass
+  gets through everything (`passAll_of_msgAt`).  Along EVERY call history in the documented order
+  (`Documented`: header calls only between records, data calls only with the marker just returned,
+  questions first, seeks / counts / random access at any time):
+    * `reader_follows_pass` / `run_documented` / `sit_step` : every call returns a value or an error
+      (C01's invariant discharges the `NoPanic` hypothesis of `run_conforming`), and the reader is
+      always in a situation of the pass (`Sit`) — dead (sticky), inside the questions at the pass
+      position, between records at the index its counters stand for, in the middle of the record whose
+      marker it returned, or holding the marker of the record that cannot be skipped, whose data no call
+      can consume; calls that reach the item that cannot be skipped fail and latch;
     * `seek_when_documented` : whenever the high-water mark of completely read items covers everything
       in front of a section, `seek` to it succeeds and lands on its first record (or the next non-empty
-      section's, or the end) — the documented criterion; `seek_live` gives the other two cases (offset
-      unknown away from the header: `RecordsSectionOffsetUnknown`, nothing changed; straight after the
-      header: forward skip);
+      section's, or the end); `seek_live` gives the other cases (offset unknown away from the header:
+      `RecordsSectionOffsetUnknown`, nothing changed; straight after the header: forward skip, which
+      fails and latches when it runs into the item that cannot be skipped);
     * `offsets_grow` : record offsets grow along the pass.
-  `run_conforming` excludes panics by hypothesis (`NoPanic`); `run_documented` discharges that
-  hypothesis with C01's invariant (`Sane`, Rsdns/Lemmas/ReaderSafe.lean): along a history that follows
-  the documented order no call panics, so the conclusion holds for the documented protocol alone.
-  Helper lemmas: Rsdns/Lemmas/History.lean.
+  Helper lemmas: Rsdns/Lemmas/History.lean, Rsdns/Lemmas/Layout.lean.
 -/
 import Rsdns.Lemmas.History
+import Rsdns.Lemmas.Layout
 import Rsdns.Lemmas.ReaderSafe
+import Rsdns.Lemmas.IterSafe
+import Rsdns.Lemmas.PassDecode
+import Rsdns.Props.C02Message
 
 set_option linter.unusedVariables false
 
 namespace Rsdns.C09
 
-open Rsdns Generated
+open Rsdns Generated Spec C02
 
-/-- **record offsets grow along the pass**: each record starts at least eleven octets behind the
-    previous one, the first one behind the questions -/
-theorem offsets_grow (msg : Bytes) (L : Lay) (hL : L.WF) (hP : PassAll msg L) (i : Nat) (hi : i < L.n) :
-    L.rOff i + 11 ≤ L.rOff (i + 1) ∧ 12 + 5 * L.qd + 11 * i ≤ L.rOff i :=
-  ⟨hP.r_grows i hi, PassAll.r_ge hL hP i (by omega)⟩
+/-! ## C09 over call histories of unbounded length (Props/C09History) -/
+
+theorem Pad.full (L : Lay) : Pad L L.n := fun i h1 h2 => by omega
+
+theorem Fails.full (msg : Bytes) (L : Lay) : Fails msg L L.qd L.n :=
+  ⟨fun h => by omega, fun _ h => by omega⟩
+
+/-- **record offsets grow along the pass**: each skippable record starts at least eleven octets behind
+    the previous one, the first one behind the questions -/
+theorem offsets_grow (msg : Bytes) (L : Lay) (hL : L.WF) {nq nr : Nat} (hP : PassUpto msg L nq nr) (hnq : nq = L.qd)
+    (i : Nat) (hi : i < nr) : L.rOff i + 11 ≤ L.rOff (i + 1) ∧ 12 + 5 * L.qd + 11 * i ≤ L.rOff i :=
+  ⟨hP.r_grows i hi, PassUpto.r_ge hL hP hnq i (by omega)⟩
 
 /-- **one conforming call.**  Whatever the situation, an allowed call that does not panic leaves the
     reader in a situation again, and the ghost invariant (documented seek criterion) is kept. -/
-theorem sit_step (msg : Bytes) (L : Lay) (hL : L.WF) (hP : PassAll msg L) (r : Reader) (p : Option Marker)
-    (maxc : Nat) (hS : Sit msg L r p) (hG : Ghost L r maxc) (op : Op) (ha : Allowed r p op)
-    (hnp : NoPanic (r.step msg op)) : StepGoal msg L r p maxc op := by
+theorem sit_step (msg : Bytes) (L : Lay) (hL : L.WF) {nq nr : Nat} (hP : PassUpto msg L nq nr) (hpad : Pad L nr)
+    (hF : Fails msg L nq nr) (r : Reader) (p : Option Marker)
+    (maxc : Nat) (hS : Sit msg L nq nr r p) (hG : Ghost L nr r maxc) (op : Op) (ha : Allowed r p op)
+    (hnp : NoPanic (r.step msg op)) : StepGoal msg L nq nr r p maxc op := by
   cases hS with
   | dead hd =>
-    obtain ⟨hs, hd'⟩ := step_dead msg L r hd op ha hnp
+    obtain ⟨hs, hd'⟩ := step_dead msg L nq nr r hd op ha hnp
     exact ⟨maxc, Nat.le_refl _, hs, Ghost.dead hd' maxc⟩
-  | ques hQ hlt hz => exact step_ques msg L hL hP r maxc hQ hlt hz hG op ha hnp
-  | recs hA hq => exact step_recs msg L hL hP r maxc hA hq hG op ha hnp
-  | mid m hM hq => exact step_mid msg L hL hP r m maxc hM hq hG op ha hnp
+  | ques hQ hlt hle hz => exact step_ques msg L hL hP hpad hF r maxc hQ hlt hle hz hG op ha hnp
+  | recs hA hq hnq hle => exact step_recs msg L hL hP hpad hF r maxc hA hq hnq hle hG op ha hnp
+  | mid m hM hq hnq hlt => exact step_mid msg L hL hP hpad hF r m maxc hM hq hnq hlt hG op ha hnp
+  | midBad m hM hq hnq hi => exact step_midBad msg L hL hP hpad hF r m maxc hM hq hnq hi hG op ha hnp
 
 /-- a protocol-conforming call history from situation `(r, p)`: every call is allowed where it is made
     (and, to keep C01's concern apart, does not panic) -/
@@ -58,88 +70,52 @@ def Conforming (msg : Bytes) : Reader → Option Marker → List Op → Prop
     Allowed r p op ∧ NoPanic (r.step msg op) ∧
       Conforming msg (r.step msg op).2 (nextPend p op (r.step msg op).1) ops
 
-/-- **histories of any length.**  Along every protocol-conforming history over a skippable message the
-    reader stays in a situation of the pass (dead; inside the questions at the position of the pass;
-    between records at the index its counters stand for; in the middle of the record whose marker it
-    returned) and the documented seek criterion holds for the high-water mark. -/
-theorem run_conforming (msg : Bytes) (L : Lay) (hL : L.WF) (hP : PassAll msg L) :
-    ∀ (ops : List Op) (r : Reader) (p : Option Marker) (maxc : Nat), Sit msg L r p → Ghost L r maxc →
+/-- **histories of any length.**  Along every protocol-conforming history the reader stays in a
+    situation of the pass and the documented seek criterion holds for the high-water mark. -/
+theorem run_conforming (msg : Bytes) (L : Lay) (hL : L.WF) {nq nr : Nat} (hP : PassUpto msg L nq nr) (hpad : Pad L nr)
+    (hF : Fails msg L nq nr) :
+    ∀ (ops : List Op) (r : Reader) (p : Option Marker) (maxc : Nat), Sit msg L nq nr r p → Ghost L nr r maxc →
       Conforming msg r p ops →
-      ∃ p' maxc', maxc ≤ maxc' ∧ Sit msg L (Reader.run msg r ops).2 p' ∧ Ghost L (Reader.run msg r ops).2 maxc' := by
+      ∃ p' maxc', maxc ≤ maxc' ∧ Sit msg L nq nr (Reader.run msg r ops).2 p' ∧ Ghost L nr (Reader.run msg r ops).2 maxc' := by
   intro ops
   induction ops with
   | nil => intro r p maxc hS hG _; exact ⟨p, maxc, Nat.le_refl _, hS, hG⟩
   | cons op ops ih =>
     intro r p maxc hS hG hC
     obtain ⟨ha, hnp, hrest⟩ := hC
-    obtain ⟨m1, hle, hS1, hG1⟩ := sit_step msg L hL hP r p maxc hS hG op ha hnp
+    obtain ⟨m1, hle, hS1, hG1⟩ := sit_step msg L hL hP hpad hF r p maxc hS hG op ha hnp
     obtain ⟨p', m2, hle2, hS2, hG2⟩ := ih _ _ m1 hS1 hG1 hrest
     exact ⟨p', m2, by omega, by simpa [Reader.run] using hS2, by simpa [Reader.run] using hG2⟩
-
-/-- a call history in the documented order (`Allowed` at every call) — no other assumption -/
-def Documented (msg : Bytes) : Reader → Option Marker → List Op → Prop
-  | _, _, [] => True
-  | r, p, op :: ops =>
-    Allowed r p op ∧ Documented msg (r.step msg op).2 (nextPend p op (r.step msg op).1) ops
-
-theorem noPanic_of_safe {x : Res Val × Reader} (h : x.1.safe) : NoPanic x := by
-  intro p hp
-  rw [hp] at h
-  exact h
-
-/-- **histories of any length, documented order only.**  `run_conforming` without its `NoPanic`
-    hypothesis: along every history in the documented order over a skippable message every call
-    returns a value or an error, and the reader stays in a situation of the pass with the documented
-    seek criterion in force. -/
-theorem run_documented (msg : Bytes) (L : Lay) (hL : L.WF) (hP : PassAll msg L) :
-    ∀ (ops : List Op) (r : Reader) (p : Option Marker) (maxc : Nat), Sit msg L r p → Ghost L r maxc →
-      Sane msg r p → Documented msg r p ops →
-      (∀ o ∈ (Reader.run msg r ops).1, o.safe) ∧
-      ∃ p' maxc', maxc ≤ maxc' ∧ Sit msg L (Reader.run msg r ops).2 p' ∧ Ghost L (Reader.run msg r ops).2 maxc' := by
-  intro ops
-  induction ops with
-  | nil =>
-    intro r p maxc hS hG _ _
-    exact ⟨fun o ho => by simp [Reader.run] at ho, p, maxc, Nat.le_refl _, hS, hG⟩
-  | cons op ops ih =>
-    intro r p maxc hS hG hN hC
-    obtain ⟨ha, hrest⟩ := hC
-    obtain ⟨hsafe, hN1⟩ := step_sane hN op (Permitted.of_allowed ha)
-    obtain ⟨m1, hle, hS1, hG1⟩ := sit_step msg L hL hP r p maxc hS hG op ha (noPanic_of_safe hsafe)
-    obtain ⟨hall, p', m2, hle2, hS2, hG2⟩ := ih _ _ m1 hS1 hG1 hN1 hrest
-    refine ⟨?_, p', m2, by omega, by simpa [Reader.run] using hS2, by simpa [Reader.run] using hG2⟩
-    intro o ho
-    simp only [Reader.run, List.mem_cons] at ho
-    rcases ho with rfl | ho
-    · exact hsafe
-    · exact hall o ho
 
 /-- **seek succeeds whenever the documentation says so.**  In a live situation whose high-water mark
     covers everything in front of section `s` (and at least one item), `seek(s)` succeeds and the reader
     stands at the first record of `s` — or of the next non-empty section, or at the end. -/
-theorem seek_when_documented (msg : Bytes) (L : Lay) (hL : L.WF) (hP : PassAll msg L) (r : Reader) (p : Option Marker)
-    (maxc : Nat) (hS : Sit msg L r p) (hG : Ghost L r maxc) (hlive : r.done = false) (s : Nat) (hs : s < 3)
+theorem seek_when_documented (msg : Bytes) (L : Lay) (hL : L.WF) {nq nr : Nat} (hP : PassUpto msg L nq nr) (hpad : Pad L nr)
+    (hF : Fails msg L nq nr) (r : Reader) (p : Option Marker)
+    (maxc : Nat) (hS : Sit msg L nq nr r p) (hG : Ghost L nr r maxc) (hlive : r.done = false) (s : Nat) (hs : s < 3)
     (h1 : 1 ≤ maxc) (h2 : L.qd + L.start s ≤ maxc) :
     ∃ r', r.seek msg s = (.ok (), r') ∧ AtIndex msg L r' ∧ idx r'.tr = L.start s := by
   have hk : r.tr.off s ≠ 0 := hG.doc hlive s hs h1 h2
   have key : ∀ (hinv : RInv msg r) (horig : r.cur.orig = none) (hT : TInv L r.tr),
       ∃ r', r.seek msg s = (.ok (), r') ∧ AtIndex msg L r' ∧ idx r'.tr = L.start s := by
     intro hinv horig hT
-    obtain ⟨hk', _, _⟩ := seek_live msg L hL hP r maxc hinv horig hlive hT s hs (hG.doc hlive)
+    obtain ⟨hk', _, _, _⟩ := seek_live msg L hL hP hpad hF r maxc hinv horig hlive hT s hs (hG.doc hlive) (hG.reach hlive)
     obtain ⟨r', he, hA', hi', _, _⟩ := hk' hk
     exact ⟨r', he, hA', hi'⟩
   cases hS with
   | dead hd => rw [hlive] at hd; cases hd
-  | ques hQ _ _ => exact key hQ.inv hQ.orig hQ.tinv
-  | recs hA _ => exact key hA.inv hA.orig hA.tinv
-  | mid m hM _ => exact key hM.inv hM.orig hM.tinv
+  | ques hQ _ _ _ => exact key hQ.inv hQ.orig hQ.tinv
+  | recs hA _ _ _ => exact key hA.inv hA.orig hA.tinv
+  | mid m hM _ _ _ => exact key hM.inv hM.orig hM.tinv
+  | midBad m hM _ _ _ => exact key hM.inv hM.orig hM.tinv
 
 /-- **start.** Right after `new` and a successful `header()`, the reader is in a situation of the pass
     for the layout announced by the header, with nothing learned yet. -/
-theorem sit_after_header (msg : Bytes) (L : Lay) (hL : L.WF) (hP : PassAll msg L) (r0 r1 : Reader) (h : Header)
+theorem sit_after_header (msg : Bytes) (L : Lay) (hL : L.WF) {nq nr : Nat} (hP : PassUpto msg L nq nr) (r0 r1 : Reader)
+    (h : Header)
     (h0 : Reader.new msg = .ok r0) (hh : r0.header msg = (.ok h, r1))
     (hq : L.qd = h.qd) (ha : L.tot 0 = h.an) (hn : L.tot 1 = h.ns) (hr : L.tot 2 = h.ar) :
-    Sit msg L r1 none ∧ Ghost L r1 0 := by
+    Sit msg L nq nr r1 none ∧ Ghost L nr r1 0 := by
   have hinv0 := RInv.new h0
   have hok := header_ok (msg := msg) hinv0
   rw [hh] at hok
@@ -168,12 +144,55 @@ theorem sit_after_header (msg : Bytes) (L : Lay) (hL : L.WF) (hP : PassAll msg L
     have hQ : QIdx msg L r1 :=
       ⟨hok.2, hcur.2, hdn, by rw [htr]; exact hT, by rw [htr]; exact hi0,
         by rw [hcur.1, htr]; simp [Tracker.set, Tracker.default, hP.q0], by rw [htr]; simp [Tracker.set, Tracker.default]⟩
-    refine ⟨?_, ⟨fun _ s _ h1 _ => by omega, fun _ => by rw [htr]; simp [Tracker.set, Tracker.default]⟩⟩
+    have hoff : ∀ j, r1.tr.off j = 0 := fun j => by rw [htr]; rfl
+    refine ⟨?_, ⟨fun _ s _ h1 _ => by omega, fun _ => by rw [htr]; simp [Tracker.set, Tracker.default],
+      fun _ s _ hne => absurd (hoff s) hne⟩⟩
+    have hrd0 : r1.tr.qd.read = 0 := by rw [htr]; simp [Tracker.set, Tracker.default]
     by_cases hz : L.qd = 0
-    · have hrd : r1.tr.qd.read = L.qd := by rw [htr]; simp [Tracker.set, Tracker.default, hz]
-      exact Sit.recs _ (hQ.toAtIndex hL hrd) hrd
-    · exact Sit.ques _ hQ (by rw [htr]; simp [Tracker.set, Tracker.default]; omega) (fun j => by rw [htr]; rfl)
+    · have hrd : r1.tr.qd.read = L.qd := by rw [hrd0, hz]
+      have hnq : nq = L.qd := by have := hP.nq_le; omega
+      exact Sit.recs _ (hQ.toAtIndex hL hrd) hrd hnq (by rw [hQ.idx0]; omega)
+    · exact Sit.ques _ hQ (by rw [hrd0]; omega) (by rw [hrd0]; omega) hoff
   · simp [he, markDone] at hh
+
+/-- a call history in the documented order (`Allowed` at every call) — no other assumption -/
+def Documented (msg : Bytes) : Reader → Option Marker → List Op → Prop
+  | _, _, [] => True
+  | r, p, op :: ops =>
+    Allowed r p op ∧ Documented msg (r.step msg op).2 (nextPend p op (r.step msg op).1) ops
+
+theorem noPanic_of_safe {x : Res Val × Reader} (h : x.1.safe) : NoPanic x := by
+  intro p hp
+  rw [hp] at h
+  exact h
+
+/-- **histories of any length, documented order only.**  `run_conforming` without its `NoPanic`
+    hypothesis (discharged by C01's invariant `Sane`): along every history in the documented order every
+    call returns a value or an error, and the reader stays in a situation of the pass with the
+    documented seek criterion in force. -/
+theorem run_documented (msg : Bytes) (L : Lay) (hL : L.WF) {nq nr : Nat} (hP : PassUpto msg L nq nr) (hpad : Pad L nr)
+    (hF : Fails msg L nq nr) :
+    ∀ (ops : List Op) (r : Reader) (p : Option Marker) (maxc : Nat), Sit msg L nq nr r p → Ghost L nr r maxc →
+      Sane msg r p → Documented msg r p ops →
+      (∀ o ∈ (Reader.run msg r ops).1, o.safe) ∧
+      ∃ p' maxc', maxc ≤ maxc' ∧ Sit msg L nq nr (Reader.run msg r ops).2 p' ∧ Ghost L nr (Reader.run msg r ops).2 maxc' := by
+  intro ops
+  induction ops with
+  | nil =>
+    intro r p maxc hS hG _ _
+    exact ⟨fun o ho => by simp [Reader.run] at ho, p, maxc, Nat.le_refl _, hS, hG⟩
+  | cons op ops ih =>
+    intro r p maxc hS hG hN hC
+    obtain ⟨ha, hrest⟩ := hC
+    obtain ⟨hsafe, hN1⟩ := step_sane hN op (Permitted.of_allowed ha)
+    obtain ⟨m1, hle, hS1, hG1⟩ := sit_step msg L hL hP hpad hF r p maxc hS hG op ha (noPanic_of_safe hsafe)
+    obtain ⟨hall, p', m2, hle2, hS2, hG2⟩ := ih _ _ m1 hS1 hG1 hN1 hrest
+    refine ⟨?_, p', m2, by omega, by simpa [Reader.run] using hS2, by simpa [Reader.run] using hG2⟩
+    intro o ho
+    simp only [Reader.run, List.mem_cons] at ho
+    rcases ho with rfl | ho
+    · exact hsafe
+    · exact hall o ho
 
 /-- **start (panic-freedom invariant).** After `new` and `header()` the invariant `Sane` of
     `run_documented` holds, whatever the bytes. -/
@@ -193,5 +212,139 @@ theorem sane_after_header (msg : Bytes) (r0 : Reader) (h0 : Reader.new msg = .ok
     | err e => exact ⟨hh, fun m hm => by cases hm⟩
     | panic p => exact hh.elim
     | ub => exact hh.elim
+
+/-- **C09 for EVERY message.**  Whatever bytes `MessageReader::new` accepts and `header()` decodes:
+    with the layout of the skip pass over them as far as it gets (`layoutOf`: `passNq` questions,
+    `passNr` records, then — if anything is left — an item that cannot be skipped), along EVERY call
+    history in the documented order, of any length,
+      * every call returns a value or an error,
+      * the reader is always in a situation of that pass: dead (sticky); inside the questions at the
+        pass position; between records at the index its counters stand for; in the middle of the
+        record whose marker it returned; or holding the marker of the record that cannot be skipped,
+        whose data no call can consume (every data call fails and latches);
+      * calls that reach the item that cannot be skipped fail and latch, nothing behind it is ever
+        reported, only sections in front of it ever get a known offset,
+      * and the documented seek criterion holds for the high-water mark of completely read items. -/
+theorem reader_follows_pass (msg : Bytes) (r0 r1 : Reader) (h : Header) (h0 : Reader.new msg = .ok r0)
+    (hh : r0.header msg = (.ok h, r1)) :
+    (layoutOf msg h).WF ∧ PassUpto msg (layoutOf msg h) (passNq msg h) (passNr msg h) ∧
+    Fails msg (layoutOf msg h) (passNq msg h) (passNr msg h) ∧
+    ∀ ops, Documented msg r1 none ops →
+      (∀ o ∈ (Reader.run msg r1 ops).1, o.safe) ∧
+      ∃ p' maxc', Sit msg (layoutOf msg h) (passNq msg h) (passNr msg h) (Reader.run msg r1 ops).2 p' ∧
+        Ghost (layoutOf msg h) (passNr msg h) (Reader.run msg r1 ops).2 maxc' := by
+  have hsz : msg.size ≤ 65535 := by
+    unfold Reader.new at h0
+    split at h0
+    · simp at h0
+    · omega
+  have hr0 : r0 = { cur := Cur.new msg, tr := Tracker.default, done := false } := by
+    unfold Reader.new at h0
+    split at h0
+    · simp at h0
+    · simp only [Res.ok.injEq] at h0; exact h0.symm
+  have hrh : readHeader msg (Cur.new msg) = (.ok h, { lim := msg.size, pos := 12, orig := none }) ∧ 12 ≤ msg.size := by
+    rw [hr0] at hh
+    unfold Reader.header Reader.onCur at hh
+    rcases readHeader_spec msg (Cur.new msg) (Cur.OK.new msg) with ⟨hd, he, hle⟩ | he
+    · simp only [he, markDone, Prod.mk.injEq, Res.ok.injEq] at hh
+      obtain ⟨rfl, _⟩ := hh
+      exact ⟨by rw [he]; rfl, by simpa [Cur.new] using hle⟩
+    · simp [he, markDone] at hh
+  have hsm := readHeader_small msg _ _ (Cur.OK.new msg) h hrh.1
+  obtain ⟨hL, hP, hpad, hF⟩ := layout_exists msg h hrh.2 hsz (by have := hsm.1; omega) (by have := hsm.2.1; omega)
+    (by have := hsm.2.2.1; omega) (by have := hsm.2.2.2; omega)
+  refine ⟨hL, hP, hF, ?_⟩
+  intro ops hD
+  obtain ⟨hS, hG⟩ := sit_after_header msg _ hL hP r0 r1 h h0 hh rfl rfl rfl rfl
+  have hN := sane_after_header msg r0 h0
+  rw [hh] at hN
+  obtain ⟨hsafe, p', maxc', _, hS', hG'⟩ := run_documented msg _ hL hP hpad hF ops r1 none 0 hS hG hN hD
+  exact ⟨hsafe, p', maxc', hS', hG'⟩
+
+theorem skipQuestion_wf (msg : Bytes) (q : QSpec) (hq : q.WF msg) :
+    skipQuestion msg (Cur.withPos msg q.off) = (.ok (), Cur.withPos msg q.endp) := by
+  obtain ⟨hname, hfit, _, _⟩ := hq
+  obtain ⟨n, hs⟩ := skipName_legal msg (Cur.withPos msg q.off) q.labels q.nxt hname
+  have hsk := skip_at msg.size q.nxt 4 none (by omega)
+  simp only [skipQuestion, bind, CurM.bind, hs]
+  simp only [Cur.withPos, Cur.setPos, hsk, QSpec.endp]
+
+theorem skipRr_wf (msg : Bytes) (x : RecSpec) (hx : x.WF msg) :
+    skipRr msg (Cur.withPos msg x.off) = (.ok (), Cur.withPos msg x.endp) := by
+  obtain ⟨hname, hfit, _, _, _, hrd, _⟩ := hx
+  obtain ⟨n, hs⟩ := skipName_legal msg (Cur.withPos msg x.off) x.labels x.nxt hname
+  have h8 := skip_at msg.size x.nxt 8 none (by omega)
+  have h16 := u16be_at msg msg.size (x.nxt + 8) none (by omega) (Nat.le_refl _)
+  have hsk := skip_at msg.size (x.nxt + 8 + 2) x.rdlen none (by omega)
+  simp only [skipRr, bind, CurM.bind, hs]
+  simp only [Cur.withPos, Cur.setPos, h8, h16, ← hrd, hsk, RecSpec.endp]
+
+
+/-- **every well-formed message is skippable**: its layout satisfies `PassAll`, so the history
+    theorems of this file apply to every well-formed message -/
+theorem passAll_of_msgAt (msg : Bytes) (h : Header) (qs : List QSpec) (rs : List RecSpec) (hm : MsgAt msg h qs rs)
+    (qe e : Nat) (hqs : QsAt msg 12 qs qe) (hrs : RecsAt msg qe rs e) : PassAll msg (layOf h qs rs e) := by
+  obtain ⟨_, _, _, hqall⟩ := hqs.chain
+  obtain ⟨_, _, _, hrall, _⟩ := hrs.chain
+  refine ⟨rfl, Nat.le_refl _, Nat.le_refl _, fun h => absurd h (Nat.lt_irrefl _), ?_, ?_⟩
+  · intro j hj
+    have hj' : j < qs.length := by rw [← hm.nq]; exact hj
+    obtain ⟨q, _, hw, ho, he⟩ := hqall j hj'
+    show skipQuestion msg (Cur.withPos msg (qEndFn 12 qs j)) = (.ok (), Cur.withPos msg (qEndFn 12 qs (j + 1)))
+    rw [← ho, ← he]
+    exact skipQuestion_wf msg q hw
+  · intro i hi
+    have hi' : i < rs.length := by rw [← hm.nr]; exact hi
+    obtain ⟨x, _, hw, ho, he⟩ := hrall i hi'
+    show skipRr msg (Cur.withPos msg (rOffFn rs e i)) = (.ok (), Cur.withPos msg (rOffFn rs e (i + 1)))
+    rw [← ho, ← he]
+    exact skipRr_wf msg x hw
+
+/-- non-vacuity of the history theorems: the 35-byte response `C02.sample` (one question, one answer
+    whose owner is a compression pointer) is skippable with a well-formed layout, and after `new` +
+    `header()` the reader is in a situation of the pass with C01's invariant in force -/
+example : ∃ L r1, L.WF ∧ PassAll sample L ∧ Sit sample L L.qd L.n r1 none ∧ Ghost L L.n r1 0 ∧ Sane sample r1 none := by
+  obtain ⟨qe, e, hqs, hrs⟩ := sample_msgAt.layout
+  have hL := layOf_wf sample _ _ _ sample_msgAt qe e hqs hrs
+  have hP := passAll_of_msgAt sample _ _ _ sample_msgAt qe e hqs hrs
+  have hnew : Reader.new sample = .ok { cur := Cur.new sample, tr := Tracker.default, done := false } := by
+    unfold Reader.new
+    rw [if_neg (by decide)]
+  cases hh : Reader.header sample { cur := Cur.new sample, tr := Tracker.default, done := false } with
+  | mk res r1 =>
+    have hs := sane_after_header sample _ hnew
+    rw [hh] at hs
+    cases res with
+    | ok hd =>
+      have hfields : hd = { id := 0x1234, flags := 0x8180, qd := 1, an := 1, ns := 0, ar := 0 } := by
+        have hf := C02.header_fields sample (Cur.new sample) (Cur.OK.new sample) (by decide)
+        unfold Reader.header Reader.onCur at hh
+        rw [hf] at hh
+        simp only [markDone, Prod.mk.injEq, Res.ok.injEq] at hh
+        rw [← hh.1]
+        decide
+      obtain ⟨hsit, hg⟩ := sit_after_header sample _ hL hP _ r1 hd hnew hh (by rw [hfields]; rfl) (by rw [hfields]; rfl)
+        (by rw [hfields]; rfl) (by rw [hfields]; rfl)
+      exact ⟨_, r1, hL, hP, hsit, hg, hs⟩
+    | err e =>
+      exfalso
+      have hf := C02.header_fields sample (Cur.new sample) (Cur.OK.new sample) (by decide)
+      unfold Reader.header Reader.onCur at hh
+      rw [hf] at hh
+      simp [markDone] at hh
+    | panic p =>
+      exfalso
+      have hf := C02.header_fields sample (Cur.new sample) (Cur.OK.new sample) (by decide)
+      unfold Reader.header Reader.onCur at hh
+      rw [hf] at hh
+      simp [markDone] at hh
+    | ub =>
+      exfalso
+      have hf := C02.header_fields sample (Cur.new sample) (Cur.OK.new sample) (by decide)
+      unfold Reader.header Reader.onCur at hh
+      rw [hf] at hh
+      simp [markDone] at hh
+
 
 end Rsdns.C09
